@@ -353,33 +353,75 @@ def run(ck, ctx):
             ck.ob("R18.4", "FITS reader returns an NssGrid", False, grid, "fits_nssgrid_reader", "")
     ck.guard(r184, "R18.4")
 
-    # ---------------------------------------------------------------- R18.2 slice consistency
+    # ---------------------------------------------------------------- R18.2 slice consistency (value graph)
     def r182():
         im = I.module(INTERP_MOD)
         f = im.functions.get("grid_slice_interp")
         if f is None:
             raise AnalysisError("grid_slice_interp not found")
-        node = f.node
-        comps = [n for n in ast.walk(node) if isinstance(n, ast.ListComp)]
-        conds = [ast.unparse(c.generators[0].ifs[0]).replace(" ", "") if c.generators[0].ifs else "" for c in comps]
-        iters = [ast.unparse(c.generators[0].iter).replace(" ", "") for c in comps]
-        ok = len(comps) == 2 and all(c == "i!=axis" for c in conds) and \
-            set(iters) == {"enumerate(grid.axes)", "enumerate(grid.axis_names)"}
-        ck.ob("R18.2", "the interpolated axis is removed from both the axes list and the names list", ok,
-              (im.relpath, node.lineno, 0), "grid_slice_interp", f"filters {conds} over {iters}")
-        calls = [n for n in ast.walk(node) if isinstance(n, ast.Call) and census.dotted(n.func).endswith("interp1d")]
-        okc = len(calls) == 1 and ast.unparse(calls[0].args[0]).replace(" ", "") == "grid.axes[axis]" and \
-            ast.unparse(calls[0].args[1]).replace(" ", "") == "grid.data" and \
-            any(k.arg == "axis" and ast.unparse(k.value) == "axis" for k in calls[0].keywords)
-        ck.ob("R18.2", "the data are interpolated along that same axis, over that axis' nodes", okc,
-              (im.relpath, node.lineno, 0), "grid_slice_interp", ast.unparse(calls[0])[:100] if calls else "")
-        kw = [k.arg for c in calls for k in c.keywords]
+        I.watch_calls.add("NssGrid.__init__")
+        grid, value, axis = I.input("grid", kind="obj"), I.input("value"), I.input("axis")
+        log0 = len(I.call_log)
+        r = I.run(I.func_node(f), [grid, value, axis])
+        fn = "grid_slice_interp"
+        calls = [c for c in I.call_log[log0:] if c[0].qualname == "NssGrid.__init__"]
+        ok = r.value is not None and r.value.op == "Obj" and len(calls) == 1 and calls[0][2].get("self") is r.value
+        ck.ob("R18.2", "the slice is returned as a newly constructed grid", ok, r.value if r.value is not None else grid,
+              fn, g.show(r.value, 2) if r.value is not None else "no value")
+        if not ok:
+            return
+        loc = {k: I.res(v, r.st) for k, v in calls[0][2].items()}
+
+        def removed(n, attr_name, what):
+            """the index expression AX such that n == [X[k] for all k != AX], X = grid.<attr_name>"""
+            sf = seqform(I, n)
+            if sf is None or len(sf) != 1 or sf[0][0] != "map":
+                raise AnalysisError(f"{what}: unrecognised list construction {g.show(n, 3)}")
+            _m, it, elt, conds = sf[0]
+            src = it.args[0] if it.op == "Enumerate" else None
+            okx = src is not None and src.op == "Attr" and src.attr == attr_name and src.args[0] is grid and \
+                elt.op == "IterElem" and elt.args[0] is src
+            ax = None
+            if okx and len(conds) == 1 and conds[0].op == "Compare" and conds[0].attr == "NotEq":
+                l, rr_ = conds[0].args
+                if position(I, l, it) == (1, 0) and l.op == "IterIdx":
+                    ax = rr_
+                elif position(I, rr_, it) == (1, 0) and rr_.op == "IterIdx":
+                    ax = l
+            ck.ob("R18.2", f"{what}: every entry of grid.{attr_name} except the one at the sliced axis, in order",
+                  ax is not None, n, fn, g.show(n, 4))
+            return ax
+        ax_a = removed(loc["axes"], "axes", "remaining axes")
+        ax_n = removed(loc["axis_names"], "axis_names", "remaining names")
+        ck.ob("R18.2", "the interpolated axis is removed from both the axes list and the names list",
+              ax_a is not None and ax_n is not None and g.same(ax_a, ax_n), loc["axes"], fn,
+              f"{g.show(ax_a, 3) if ax_a is not None else '?'} / {g.show(ax_n, 3) if ax_n is not None else '?'}")
+        if ax_a is None:
+            return
+        # axis resolution: the index itself, or the position of the name in grid.axis_names
+        arms = [ax_a] if ax_a.op != "Phi" else [ax_a.args[1], ax_a.args[2]]
+        okr = all(x is axis or (x.op == "MCall" and x.attr[0] == "index" and len(x.args) == 2 and x.args[1] is axis and
+                                x.args[0].op == "Attr" and x.args[0].attr == "axis_names" and x.args[0].args[0] is grid)
+                  for x in arms)
+        ck.ob("R18.2", "an axis given by name is resolved through the grid's own name list", okr, ax_a, fn,
+              g.show(ax_a, 4))
+        data = loc["data"]
+        inner = data.args[0] if data.op == "Call" and len(data.args) == 2 and data.args[1] is value else None
+        oki = inner is not None and is_ext_call(inner, "scipy.interpolate.interp1d")
+        pos, kws = call_args(inner) if oki else ([], {})
+        x = pos[0] if pos else kws.get("x")
+        y = pos[1] if len(pos) > 1 else kws.get("y")
+        axn = kws.get("axis", pos[3] if len(pos) > 3 else None)
+        okc = oki and x is not None and x.op == "Subscript" and x.args[0].op == "Attr" and x.args[0].attr == "axes" and \
+            x.args[0].args[0] is grid and g.same(x.args[1], ax_a) and y is not None and y.op == "Attr" and \
+            y.attr == "data" and y.args[0] is grid and axn is not None and g.same(axn, ax_a)
+        ck.ob("R18.2", "the data are interpolated along that same axis, over that axis' nodes, at the requested value",
+              okc, data, fn, g.show(data, 4))
+        kind = kws.get("kind", pos[2] if len(pos) > 2 else None)
+        ck.ob("R18.2", "the interpolation is piecewise linear", kind is None or (kind.op == "Const" and
+              kind.attr in ("linear", 1)), data, fn, g.show(kind, 1) if kind is not None else "default kind")
         ck.ob("R18.2", "slicing outside the axis range raises (no extrapolation / fill value)",
-              not ({"bounds_error", "fill_value"} & set(kw)), (im.relpath, node.lineno, 0), "grid_slice_interp", str(kw))
-        rets = [n for n in ast.walk(node) if isinstance(n, ast.Return)]
-        okr = len(rets) == 1 and ast.unparse(rets[0].value).replace(" ", "") == "NssGrid(new_data,new_axes,new_names)"
-        ck.ob("R18.2", "the slice is returned as a grid of (data, remaining axes, remaining names)", okr,
-              (im.relpath, node.lineno, 0), "grid_slice_interp", ast.unparse(rets[0])[:80] if rets else "")
+              not ({"bounds_error", "fill_value"} & set(kws)) and len(pos) <= 4, data, fn, str(sorted(kws)))
     ck.guard(r182, "R18.2")
 
     # ---------------------------------------------------------------- R18.3 data audit
